@@ -23,6 +23,9 @@ CHECKS = {
  "C19": ("exploration", "Model-tracked histories biased to kind-changing overwrites, TTL changes, renames, drops and PDEL run against a verif build; at intervals an in-process AUDIT command cross-checks the id tree against the spatial, value and expiry indexes, the four counters, the hook registries and the group maps, and a client-side monitor recomputes STATS, SERVER totals, SCAN COUNT, SEARCH COUNT, KEYS and BOUNDS from the SCAN dump and checks that every retrievable object is found through SEARCH / WITHIN / INTERSECTS / NEARBY and nothing else is; in_memory_size and num_points are compared with a fresh server holding one SET per object.",
          "A BOUNDS-born rectangle counts 2 points; BOUNDS deviations below one float32 step are the listed finding bounds-float32-tie; the AUDIT code is part of the trusted base.",
          "runtime monitoring: in-process invariant audit at quiescent points + client-side recomputation oracle", "4/C19"),
+ "C18": ("exploration", "Atomicity: concurrent script clients (EVAL/EVALSHA/EVALNA) write two objects per call with a unique token while plain writers and single-SCAN readers run; monitors: no SCAN sees a half-applied script, no foreign log entry between the two writes of an atomic script (EVALNA interleavings are counted to show the monitor can see them), porcupine with each script as one model step. Read-only: a hostile script list under EVALRO/EVALROSHA with dump and log-size differential. Sandbox: everything reachable from the script globals is enumerated from Go (verif build) and probed from inside scripts for every Lua 5.1 / gopher-lua library name and compared with the documented allow-list; creation of globals and survival of per-call globals (also on failing calls, observed through WHEREEVAL on the pooled state) are probed.",
+         "The allow-list coded in the check is the documented environment; kmodel for the porcupine step; restart/follower reproduction of script writes is decided by C03/C06.",
+         "runtime monitoring: recorded-history checkers (reader snapshots, log adjacency, porcupine) + differential probes + in-process enumeration of the Lua environment", "4/C18"),
 }
 def main():
     old = json.load(open('/verif/MANIFEST.json'))
